@@ -38,6 +38,10 @@ type Case struct {
 	// ReadErrOnce: the reader reports the injected error once and delivers the rest of the stream if it is asked again
 	// (a timeout-like error); Parse must return the error all the same
 	ReadErrOnce bool `json:"read_err_once,omitempty"`
+	// ReadErrWithData: the failing Read call also delivers the bytes before the failing position (n > 0 together with the error)
+	ReadErrWithData bool `json:"read_err_with_data,omitempty"`
+	// ReadErrWrapsEOF: the injected error wraps io.EOF ("connection reset: EOF"): it is not a clean end of input
+	ReadErrWrapsEOF bool `json:"read_err_wraps_eof,omitempty"`
 	InitBuf    int   `json:"init_buf"`            // initial buffer size
 	WellFormed bool  `json:"well_formed"`
 }
@@ -247,6 +251,8 @@ func genCase(t *rapid.T) Case {
 	case 0:
 		c.ReadErrAt = rapid.IntRange(0, n).Draw(t, "readerr")
 		c.ReadErrOnce = rapid.Bool().Draw(t, "readerr-once")
+		c.ReadErrWithData = rapid.Bool().Draw(t, "readerr-with-data")
+		c.ReadErrWrapsEOF = rapid.IntRange(0, 2).Draw(t, "readerr-wraps-eof") == 0
 	case 1:
 		c.CbErrAt = rapid.IntRange(0, 3).Draw(t, "cberr")
 	}
@@ -254,6 +260,9 @@ func genCase(t *rapid.T) Case {
 }
 
 var errInjected = errors.New("injected read error")
+
+// errInjectedEOF is a read error that wraps io.EOF (and errInjected, so that one errors.Is serves both)
+var errInjectedEOF = fmt.Errorf("connection reset (%w): %w", errInjected, io.EOF)
 var errCallback = errors.New("injected callback error")
 
 type partReader struct {
@@ -265,6 +274,8 @@ type partReader struct {
 	errAt     int
 	errOnce   bool
 	errGiven  bool
+	errWithData bool
+	errValue    error
 	readCalls int
 	boundaryInHeader bool
 	headerOffsets    map[int]bool
@@ -277,7 +288,7 @@ func (r *partReader) Read(p []byte) (int, error) {
 	}
 	if r.errAt >= 0 && r.pos >= r.errAt && !(r.errOnce && r.errGiven) {
 		r.errGiven = true
-		return 0, errInjected
+		return 0, r.errValue
 	}
 	if r.pos >= len(r.data) {
 		return 0, io.EOF
@@ -297,6 +308,10 @@ func (r *partReader) Read(p []byte) (int, error) {
 	r.pos += n
 	if r.headerOffsets[r.pos] {
 		r.boundaryInHeader = true
+	}
+	if r.errWithData && r.errAt >= 0 && r.pos == r.errAt && n > 0 && !r.errGiven {
+		r.errGiven = true
+		return n, r.errValue // the error comes with the last bytes before the failing position
 	}
 	if r.dataEOF && r.pos >= len(r.data) && n > 0 && (r.errAt < 0 || r.errAt > r.pos) {
 		return n, io.EOF
@@ -355,7 +370,10 @@ type info struct {
 
 func runParser(c Case, s []byte) (got []cbRec, err error, rd *partReader, bufLen int, elapsed time.Duration) {
 	_, _, hdr := model(s)
-	rd = &partReader{data: s, reads: c.Reads, dataEOF: c.DataEOF, errAt: c.ReadErrAt, errOnce: c.ReadErrOnce, headerOffsets: hdr}
+	rd = &partReader{data: s, reads: c.Reads, dataEOF: c.DataEOF, errAt: c.ReadErrAt, errOnce: c.ReadErrOnce, errWithData: c.ReadErrWithData, errValue: errInjected, headerOffsets: hdr}
+	if c.ReadErrWrapsEOF {
+		rd.errValue = errInjectedEOF
+	}
 	calls := 0
 	cb := func(cd chunkparser.ChunkData) error {
 		if calls == c.CbErrAt {
